@@ -62,6 +62,10 @@ add("C17", "genrun", "proptest over --async directive lists; reference model (fi
     "20k directive lists per quick run against a fixed world that has every function kind in both directions (same name imported and exported, interface imported and exported, inline interfaces, resource constructor/method/static, sync and async): is_async for every (function, direction), Display round trip, ensure_all_used; plus 1.5k generator runs (Rust, C, MoonBit; separate or comma-joined --async options) where `[async-lower]..`/`[async-lift]..` names must appear exactly for the selected functions and Rust must reject exactly the lists with a directive that matches nothing.",
     "One fixed world (directive semantics do not depend on type shapes); a directive that is always shadowed is not judged for `unused`; generator output is inspected textually for the canonical async names.")
 
+add("C13", "genrun", "generated worlds + corpus x 7 backends x variants; declarations extracted from generated text -> synthetic core module (wasm-encoder) + world metadata -> wit_component::ComponentEncoder (independent oracle), plus export-name membership in wit-parser's enumeration",
+    "For every (world, backend, variant) the import/export declarations (names and core signatures) are extracted with attribute-anchored patterns for C/C++, Rust, Go, C#, MoonBit and D, turned into a synthetic core module with the world's component-type metadata, and wit-component must (1) resolve every import and export against the world (unknown name, wrong core signature, missing required export are errors) and (2) produce a component that validates; every exported name must be one wit-parser assigns to an item of the world. 6k generated worlds + corpus per quick run. Three defects were fixed, eleven signatures (three about --async on sync functions, eight C# ones) are listed known findings; failures of one case are triaged individually so a known one never masks another.",
+    "Extraction patterns and the language-type->core-type tables are trusted; unmapped types are counted and judged on names only; imports are only judged if declared (the property says `actually references`); nothing is compiled or executed.")
+
 PENDING_REASON = "check not built yet in this session (planned in DESIGN.md §4); not claimed until it exists and passes its sensitivity runs"
 
 def main():
@@ -113,7 +117,7 @@ def main():
 NA = {}
 HOOK_COMMITS = ["b827c12", "a6f2383"]
 ENGINES = [
-    {"name": "genrun", "path": "harness/genrun", "serves_properties": ["C15", "C16", "C17", "C29", "C30", "C33"], "kind_free_text": "tape-driven constructive WIT world generator (harness/witgen) + in-process drivers for all eight generators with panic capture and output collection"},
+    {"name": "genrun", "path": "harness/genrun", "serves_properties": ["C13", "C15", "C16", "C17", "C29", "C30", "C33"], "kind_free_text": "tape-driven constructive WIT world generator (harness/witgen) + in-process drivers for all eight generators with panic capture and output collection"},
     {"name": "abisim", "path": "harness/abisim", "serves_properties": ["C01", "C02", "C03", "C04"], "kind_free_text": "recording wit_bindgen_core::abi::Bindgen + instruction interpreter + independent reference canonical ABI (harness/refabi), driven by proptest"},
     {"name": "rtpbt", "path": "harness/rtpbt", "serves_properties": ["C24"], "kind_free_text": "proptest histories against wit_bindgen::rt allocation entry points with a tracking global allocator"},
     {"name": "corepbt", "path": "harness/corepbt", "serves_properties": ["C17", "C25", "C26", "C27", "C28", "C34"], "kind_free_text": "proptest harnesses over public items of wit-bindgen-core / wit-bindgen rt / wit-bindgen-test"},
